@@ -411,7 +411,7 @@ fn c08_ops(g: &mut Gen, thorough: bool) {
             let gr = GGrid { lat_n: lat_s + d, lat_s, lon_w: lon, lon_e: lon + d, dlat: d, dlon: d, rows: 2, cols: 2, bands, values: vec![v; 4 * bands], projected: false, fancy: false };
             f.push(crate::wire::escape(&gr.gravsoft(&mut g.rng, false)));
             f.push(format!("{},{},{},{},{},{}", fbits(gr.lat_n), fbits(gr.lat_s), fbits(gr.lon_w), fbits(gr.lon_e), fbits(gr.dlat), fbits(gr.dlon)));
-            lon += d + *g.rng.pick(&[0.0, 0.3, 0.6, 0.8, 1.2, -0.5]);
+            lon += d + *g.rng.pick(&[0.0, 0.3, 0.6, 0.8, 1.2, -0.5, -0.5, -0.3]);
             geoms.push(gr);
         }
         let null = g.rng.chance(1, 4);
@@ -420,6 +420,15 @@ fn c08_ops(g: &mut Gen, thorough: bool) {
         for gr in &geoms {
             for _ in 0..5 {
                 q.push(((gr.lon_w + g.rng.uniform(-0.7, 1.7)) * u, (gr.lat_s + g.rng.uniform(-0.7, 1.7)) * u, "any"));
+            }
+        }
+        // a point inside a later grid only, followed in the same batch by a point where it overlaps an
+        // earlier one: the earlier grid must still win for the second point
+        for j in 1..geoms.len() {
+            let (a, b) = (&geoms[j - 1], &geoms[j]);
+            if b.lon_w < a.lon_e {
+                q.push(((a.lon_e + 0.5 * (b.lon_e - a.lon_e)) * u, (b.lat_s + 0.4) * u, "later-only"));
+                q.push(((b.lon_w + 0.5 * (a.lon_e - b.lon_w)) * u, (b.lat_s + 0.6) * u, "overlap"));
             }
         }
         f.push(if null { "1" } else { "0" }.into());
